@@ -143,7 +143,7 @@ static bool valid_set_attr_len(enum xcm_attr_type type, size_t len)
     case xcm_attr_type_bin:
 	return true;
     default:
-	ut_assert(0);
+	return false;
     }
 }
 
